@@ -32,7 +32,9 @@ theorem seal_shape : (paths crypterEncrypt).all (fun p =>
       p.calls "cryptorand.Read" = [["nonce"]] &&
       p.before "chacha20poly1305.NewX" "make" && p.before "make" "cryptorand.Read" &&
       p.conds = [("err != nil", false), ("plaintextSize > MaxPlaintextSize", false), ("err != nil", false)]) = true ∧
-    ((paths crypterEncrypt).filter (fun p => !failsWithNil p)).length = 1 := by decide
+    ((paths crypterEncrypt).filter (fun p => !failsWithNil p)).length = 1 ∧
+    -- `cryptorand` in that file IS crypto/rand
+    crypterImports.contains "cryptorand=crypto/rand" = true ∧ crypterImports.contains "golang.org/x/crypto/chacha20poly1305" = true := by decide
 
 /-- **open**: the only path that returns the AEAD's verdict has built the AEAD from the crypter's own key, refused anything shorter than a nonce, split the input
     at the nonce size and returns `Open(nil, nonce, encrypted, nil)` unchanged (plaintext AND error: a failed tag check is the caller's error). -/
